@@ -21,14 +21,24 @@
       IndexOK      the index cells list exactly the shapes' edges (C06)
     [Terminates]: the modelled loop (2^81 iterations of fuel) ran until the queue was empty.
 
-    TODO (covered by the observer's exhaustive-scan search and the model correspondence on
-    every run, not yet closed theorems):
-      - SplitSound / CoverSound for the transcribed CellID arithmetic (split_cell, init_covering false)
-      - Terminates from the level measure
-      - targets that substitute approximate distances (ShapeIndex targets with MaxError > 0,
-        avoidDuplicates, conservative cell distances): rank-wise error bound for MaxResults > 1 *)
+    DISCHARGED (second block of theorems below): on a well-formed, non-empty index
+    ([IndexWF]: valid cell ids, sorted, pairwise disjoint) [SplitSound] (the two seeks and two
+    Prev calls of findEdgesOptimized enumerate exactly the children holding index cells),
+    [Terminates] (level measure over the proved priority queue) and the infinite-limit part of
+    [CoverSound] (initCovering's repaired loop: its top-level cells are valid, carry the right
+    contents and represent every index cell) are theorems; they use the cell-id theory of
+    Proofs/C05_CellFacts.v. [WfPremises] / [ApxPremises] keep only the target's distance facts,
+    IndexOK (C06) and, for a finite limit, [CoverFinite] (the cleaned-up intersection with the
+    search cap's covering represents every index cell within the limit: H-CAPARITH, C05).
+    Targets that substitute approximate distances (ShapeIndex targets with MaxError > 0,
+    duplicate avoidance with the testedEdges set as repaired, conservative cell distances) are
+    covered by [approx_single_result_within_error] and [approx_results_within_error].
+
+    TODO: [CoverFinite] from the transcribed clean-up loop of initQueue; LB / Val for the float
+    distance functions (H-CELLDIST, H-EDGEDIST). *)
 From Coq Require Import ZArith List Bool Sorted.
-From Geo Require Import Model.EdgeQuery Proofs.C08_Post Proofs.C08_Opt Proofs.C08_Heap Proofs.C08_Main Proofs.C08_Refute Proofs.C08_Example.
+From Geo Require Import Model.EdgeQuery Proofs.C05_CellFacts Proofs.C08_Post Proofs.C08_Opt Proofs.C08_Heap Proofs.C08_Main Proofs.C08_Refute
+  Proofs.C08_Cells Proofs.C08_Split Proofs.C08_Term Proofs.C08_Cover Proofs.C08_Approx Proofs.C08_Final Proofs.C08_Example.
 Import ListNotations.
 Local Open Scope Z_scope.
 
@@ -144,3 +154,103 @@ Theorem unclamped_sub_refuted : exists (o : options Z) (x : index),
   find_edges zops o crossing_target x false false = [mkR 0 0 0].
 Proof. exact sub_unclamped_refuted. Qed.
 Print Assumptions unclamped_sub_refuted.
+
+(** ------------------------------------------------------------------------------------
+    premises discharged on well-formed indexes *)
+
+(** the child enumeration of findEdgesOptimized covers exactly the index cells under the parent *)
+Theorem split_sound_on_wellformed_index : forall x, IndexWF x -> SplitSound x valid.
+Proof. exact split_sound. Qed.
+Print Assumptions split_sound_on_wellformed_index.
+
+(** initCovering (without the stray break): valid top-level cells that represent every index cell, at most 9 *)
+Theorem init_covering_covers_the_index : forall x, IndexWF x -> x_cells x <> [] ->
+  (forall ce, In ce (init_covering x false) -> centry_good x ce) /\
+  (forall c, In c (x_cells x) -> exists ce, In ce (init_covering x false) /\ rep ce c) /\
+  (length (init_covering x false) <= 9)%nat.
+Proof. exact init_covering_sound. Qed.
+Print Assumptions init_covering_covers_the_index.
+
+(** the search loop empties its queue within the modelled fuel *)
+Theorem search_terminates : forall D (ops : dist_ops D), DistOK ops ->
+  forall (o : options D) (t : target D) (x : index), IndexWF x -> forall brk,
+  (forall lim, (forall ce, In ce (init_entries D ops t x brk lim) -> centry_good x ce) /\
+               Z.of_nat (length (init_entries D ops t x brk lim)) < 2 ^ 17) ->
+  Terminates D ops o t x brk.
+Proof. exact terminates. Qed.
+Print Assumptions search_terminates.
+
+Theorem opt_eq_brute_on_wellformed_index : forall D (ops : dist_ops D), DistOK ops ->
+  forall x, IndexWF x -> x_cells x <> [] -> forall (o : options D) (t : target D) edist cdist,
+  WfPremises D ops x o t edist cdist ->
+  let out_o := find_edges ops o t x false false in
+  let out_b := find_edges ops (with_brute D o) t x false false in
+  (o_max_results o <> 1 -> out_o = out_b) /\ (ErrZero D ops o -> map r_dist out_o = map r_dist out_b).
+Proof. exact opt_eq_brute_wf. Qed.
+Print Assumptions opt_eq_brute_on_wellformed_index.
+
+Theorem opt_within_error_on_wellformed_index : forall D (ops : dist_ops D), DistOK ops ->
+  forall x, IndexWF x -> x_cells x <> [] -> forall (o : options D) (t : target D) edist cdist,
+  WfPremises D ops x o t edist cdist ->
+  o_max_results o = 1 -> d_eqb ops (o_limit o) (d_zero ops) = false ->
+  s_results (interiors_state D ops o t) = [] ->
+  let out := find_edges ops o t x false false in
+  (out = [] <-> forall e, In e (all_edges x) -> d_less ops (edist e) (o_limit o) = false) /\
+  (forall r, In r out ->
+     (exists e, In e (all_edges x) /\ r = mkres D edist e /\ d_less ops (edist e) (o_limit o) = true) /\
+     (forall e, In e (all_edges x) -> d_less ops (edist e) (d_sub ops (r_dist r) (o_max_error o)) = false)).
+Proof. exact opt_within_error_wf. Qed.
+Print Assumptions opt_within_error_on_wellformed_index.
+
+Theorem is_distance_less_on_wellformed_index : forall D (ops : dist_ops D), DistOK ops ->
+  forall x, IndexWF x -> x_cells x <> [] -> forall straight (o : options D) (t : target D) lim edist cdist,
+  let o' := mkOptions 1 lim straight (o_interiors o) (o_brute o) in
+  WfPremises D ops x o' t edist cdist ->
+  d_eqb ops lim (d_zero ops) = false -> s_results (interiors_state D ops o' t) = [] ->
+  (forall e, In e (all_edges x) -> 0 <= fst e) ->
+  (is_distance_less ops straight o t x lim = true <-> exists e, In e (all_edges x) /\ d_less ops (edist e) lim = true).
+Proof. exact is_distance_less_wf. Qed.
+Print Assumptions is_distance_less_on_wellformed_index.
+
+(** ------------------------------------------------------------------------------------
+    targets that substitute approximate distances *)
+
+(** MaxResults = 1: the single result is within the permitted error of the optimum, and exists
+    iff some edge is within the limit (this is how Distance / IsDistanceLess search with a
+    ShapeIndex target) *)
+Theorem approx_single_result_within_error : forall D (ops : dist_ops D), DistOK ops ->
+  forall x, IndexWF x -> x_cells x <> [] ->
+  forall (o : options D) (t : target D) tdist tcell Val cons av (st : state D),
+  ApxPremises D ops x o t tdist tcell Val cons ->
+  s_queue st = [] -> s_tested st = [] -> s_results st = [] -> o_max_results o = 1 ->
+  let so := find_edges_optimized D ops o t x false false cons av st in
+  let out := truncate D o (sort_unique ops (rev (s_results so))) in
+  (out = [] <-> forall e, In e (all_edges x) -> d_less ops (tdist e) (s_limit st) = false) /\
+  (forall r, In r out ->
+     (exists e v, In e (all_edges x) /\ r = Approx.res D v e /\ Val e v /\ d_less ops v (s_limit st) = true) /\
+     (forall e, In e (all_edges x) -> d_less ops (tdist e) (d_sub ops (r_dist r) (o_max_error o)) = false)).
+Proof. exact approx_k1_wf. Qed.
+Print Assumptions approx_single_result_within_error.
+
+(** MaxResults <> 1: every edge within the limit is reported with an allowed value, nothing
+    else is reported, with duplicate avoidance (testedEdges as repaired) no edge is reported
+    twice, and the truncated output misses no edge that is better than a reported one by more
+    than the permitted error *)
+Theorem approx_results_within_error : forall D (ops : dist_ops D), DistOK ops ->
+  forall x, IndexWF x -> x_cells x <> [] ->
+  forall (o : options D) (t : target D) tdist tcell Val cons av (st : state D),
+  ApxPremises D ops x o t tdist tcell Val cons ->
+  s_queue st = [] -> s_tested st = [] -> o_max_results o <> 1 ->
+  (forall r, In r (s_results st) -> d_less ops (r_dist r) (s_limit st) = true) ->
+  let so := find_edges_optimized D ops o t x false false cons av st in
+  let out := truncate D o (sort_unique ops (rev (s_results so))) in
+  (forall r, In r (s_results so) -> In r (s_results st) \/
+     exists e v, In e (all_edges x) /\ r = Approx.res D v e /\ Val e v /\ d_less ops v (s_limit st) = true) /\
+  (forall e, In e (all_edges x) -> d_less ops (tdist e) (s_limit st) = true ->
+     exists v, In (Approx.res D v e) (s_results so) /\ Val e v) /\
+  (av = true -> exists added, s_results so = added ++ s_results st /\ NoDup (map (Approx.rkey D) added)) /\
+  (forall r e, In r out -> In e (all_edges x) ->
+     d_less ops (tdist e) (d_sub ops (r_dist r) (o_max_error o)) = true ->
+     exists v, In (Approx.res D v e) out /\ Val e v).
+Proof. exact approx_all_wf. Qed.
+Print Assumptions approx_results_within_error.
